@@ -9,6 +9,10 @@ import sim as S
 
 VERIF = B.VERIF
 KNOWN_FILE = os.path.join(VERIF, "known_findings.txt")
+# runs against a scratch copy (mutation campaign) must not touch the committed evidence
+_ALT = os.path.realpath(B.REPO) != "/repo"
+EVDIR = os.path.join(VERIF, ".build", "alt", "evidence") if _ALT else os.path.join(VERIF, "evidence")
+RPDIR = os.path.join(VERIF, ".build", "alt", "replays") if _ALT else os.path.join(VERIF, "replays")
 
 
 def seed_for(*parts):
@@ -149,7 +153,7 @@ def main(module, argv):
             total.extra.setdefault(k, []).append(v)
 
     known, fixed = load_known()
-    os.makedirs(os.path.join(VERIF, "replays"), exist_ok=True)
+    os.makedirs(RPDIR, exist_ok=True)
     seen_known, new_viol, seen_keys = {}, [], set()
     for v in total.violations:
         k = (prop, v["key"])
@@ -166,7 +170,7 @@ def main(module, argv):
         print("KNOWN-FINDING: property=%s %s [%s]" % (prop, what, key))
     for v in new_viol:
         name = "%s_%s.json" % (prop, hashlib.md5(v["key"].encode()).hexdigest()[:10])
-        path = os.path.join(VERIF, "replays", name)
+        path = os.path.join(RPDIR, name)
         json.dump({"property": prop, "tier": tier, "seed": seed, "module": module.__name__, **v}, open(path, "w"), indent=1)
         print("violation key=%s :: %s" % (v["key"], v["desc"]))
         print("VIOLATION property=%s replay=%s" % (prop, path))
@@ -198,8 +202,8 @@ def main(module, argv):
     }
     if problems:
         ev["coverage"]["inconclusive"] = problems[:10]
-    os.makedirs(os.path.join(VERIF, "evidence"), exist_ok=True)
-    json.dump(ev, open(os.path.join(VERIF, "evidence", prop + ".json"), "w"), indent=1)
+    os.makedirs(EVDIR, exist_ok=True)
+    json.dump(ev, open(os.path.join(EVDIR, prop + ".json"), "w"), indent=1)
 
     print("%s %s seed=%d: %d evaluations, %d distinct non-trivial, %d violations, %d known, %.1fs" % (
         prop, tier, seed, total.evals, len(total.nontrivial), len(new_viol), len(seen_known), time.time() - t0))
